@@ -16,13 +16,16 @@ MANIFEST = {
             "for real rows/real scalars and complex rows/complex scalars of any length and any number of sections; length preserved "
             "(ValueError exactly when len <= padding); signal, noise and each polarisation filtered independently by the same row "
             "filter; LPF output depends on the real part only; F(const c)=const c for every length and c under the hypothesis "
-            "SteadyState(sos,zi) and prod(sum b/sum a)=1.  Tie: the same definitions executed at Float against LPF()/BPF() outputs on the "
+            "SteadyState(sos,zi) and prod(sum b/sum a)=1; retH = fftshift of prod B_i(z^-1)/A_i(z^-1) on the N-point grid: N points, ifftshift recovers grid "
+            "order for every N, value prod(sum b/sum a) (=1 under the dc_gain hypothesis) at the centre, Hermitian about the centre, a steady-state "
+            "complex exponential is scaled by H per pass and by |H|^2 (zero phase) forward-backward.  Tie: the same definitions executed at Float against LPF()/BPF() outputs on the "
             "sos actually passed to scipy.signal.sosfiltfilt (spied), zi from scipy.signal.sosfilt_zi, padlen as scipy computes it; the "
             "steady-state hypothesis and prod G = 1 are evaluated numerically on those coefficients for every case.",
     "note": "scipy.signal.bessel (filter design) and sosfilt_zi are parameters of the model, not modelled; therefore -6.0 dB at cut-off, "
-            "monotone attenuation, zero delay / symmetric pulse response, no power increase of a tone and retH = single-pass response "
+            "monotone attenuation, zero delay / symmetric pulse response of the REAL edge-padded filter and no power increase of a tone "
             "are NOT theorems: they are checked by the oracle on the real code (tones fitted in the central third of long records, "
-            "Gaussian pulses, retH against measured tone gains). Proofs over R (no rounding). The padding is 3*(order+1) samples (15 for "
+            "Gaussian pulses, retH against measured tone gains). sosfreqz is modelled (polynomial ratio per section on w_k=2*pi*k/N) and "
+            "tied by the Float run against the returned retH (odd and even N, 1e-9). Proofs over R (no rounding). The padding is 3*(order+1) samples (15 for "
             "the default order 4); rows not longer than that raise ValueError in scipy and are outside the statement's quantifier. "
             "Axioms: propext, Classical.choice, Quot.sound.",
     "technique": "Lean 4 proof (induction over samples and sections) about a generic sosfiltfilt model executed at Float in a differential run against LPF()/BPF() with spied scipy coefficients; executable oracle for the design-dependent clauses",
@@ -42,7 +45,7 @@ PARTIAL = [
     "attenuation grows monotonically with frequency: oracle on 7 tones per case (gain non-increasing within 1e-6)",
     "zero delay / symmetric pulse response: oracle (Gaussian pulse, mirror error <= 1e-9 of the peak; tone phase <= 1e-5 rad)",
     "never increases the power of a stationary tone: oracle (fitted gain <= 1+1e-6 on every tone)",
-    "retH describes the single-pass prototype: oracle (length N, H(0)=1, |H(cut-off)|=1/sqrt2, Hermitian symmetry, |H|^2 = measured two-pass tone gain)",
+    "retH: its length, fftshift layout, DC value, Hermitian symmetry and its meaning for the recursion (steady-state exponential scaled by H per pass, |H|^2 forward-backward) ARE theorems and the Float model is compared with the returned array; what stays oracle-only is |H(cut-off)| = 1/sqrt2 (Bessel design) and the agreement of |H|^2 with the two-pass gain MEASURED on the real filter with its real (DC steady-state) initial conditions and edges",
     "scipy.signal.bessel / sosfilt_zi / the compiled _sosfilt loop are trusted to be what the model's parameters and recursion say; Float rounding is outside the theorems",
 ]
 ASSUMPTIONS = ["scipy.signal.sosfiltfilt implements the documented pad/zi/forward-backward algorithm (tied by the differential run)",
@@ -131,9 +134,12 @@ def gen_cases(rng, tier):
             sps, R = rng.choice(GVS)
             cases.append({"kind": "pulse", "dev": rng.choice(["lpf", "bpf"]), "order": order, "fcn": _fcn(rng), "sps": sps, "R": R,
                           "npol": 1, "pos": rng.uniform(0.4, 0.6), "seed": rng.getrandbits(32)})
-        sps, R = rng.choice(GVS)
-        cases.append({"kind": "reth", "dev": "lpf", "order": order, "kc": rng.randint(12, 170), "nr": rng.choice([400, 512, 601]),
-                      "sps": sps, "R": R, "npol": 1, "fs_arg": rng.choice([None, 5e9]), "seed": rng.getrandbits(32)})
+        # retH: odd and even record lengths (fftshift and ifftshift differ on odd ones), cut-off on a grid bin
+        for nr in ([rng.choice([33, 101, 257, 601]), rng.choice([64, 400, 512])] if quick else [33, 64, 101, 257, 400, 512, 601]):
+            sps, R = rng.choice(GVS)
+            cases.append({"kind": "reth", "dev": "lpf", "order": order, "nr": nr,
+                          "kc": rng.randint(max(1, int(math.ceil(0.011 * nr))), int(0.44 * nr)),
+                          "sps": sps, "R": R, "npol": 1, "fs_arg": rng.choice([None, 5e9]), "seed": rng.getrandbits(32)})
         # records not longer than the padding: scipy refuses them (outside the statement; the model must agree on the error)
         sdev = rng.choice(["lpf", "bpf"])
         cases.append({"kind": "short", "dev": sdev, "order": order, "fcn": _fcn(rng),
@@ -560,6 +566,10 @@ def _run_reth(case, fs, spy, res):
     y, H = out
     H = np.asarray(H)
     res.update(status="ok", reth_form="pair", Hlen=int(H.size), n=n, out_len=int(y.signal.size))
+    spy.on = False
+    res["params"], res["remarks"] = _params(spy)
+    if H.ndim == 1:
+        res["H"] = _pack(H)
     if H.size != n:
         return
     c = n // 2                            # DC after fftshift
@@ -578,7 +588,6 @@ def _run_reth(case, fs, spy, res):
         g, resid = _fit(t, yt, fn, nl // 3, 2 * nl // 3, False)
         meas.append({"kb": int(kb), "g2pass": abs(g), "H2": float(abs(H[c + kb]) ** 2), "resid": resid})
     res["meas"] = meas
-    res["params"], res["remarks"] = _params(spy)
 
 
 # ------------------------------------------------------------------------------------------------ model
@@ -605,6 +614,14 @@ def model_requests(case, res):
                 s, nz, _, _ = _data(_step_case(case, st["i"]))
                 reqs.append(_request("bpf" if case["dev"] == "bpf" else "lpf", st["params"], s, nz))
         return reqs
+    if case["kind"] == "reth":
+        p = res.get("params")
+        if not p or res.get("status") != "ok" or res.get("reth_form") != "pair":
+            return []
+        secs = [str(len(p["sos"]))]
+        for row, z in zip(p["sos"], p["zi"]):
+            secs += [enc_f(row[0]), enc_f(row[1]), enc_f(row[2]), enc_f(row[4]), enc_f(row[5]), enc_f(z[0]), enc_f(z[1])]
+        return [f"filter.reth {case['nr']} {' '.join(secs)}"]
     if case["kind"] not in ("lpf", "bpf", "short"):
         return []
     p = res.get("params")
@@ -700,6 +717,19 @@ def compare(case, res, reqs, replies):
         out.append("model parameters: " + rm)
     if p:
         out += _hyp(p)
+    if case["kind"] == "reth":
+        if not reqs:
+            if res.get("status") == "ok":
+                out.append("retH: no (output, H) pair / no coefficients observed, nothing to compare with the model")
+            return out
+        if not replies[0].startswith("ok "):
+            return out + [f"retH: model replied {replies[0][:60]}"]
+        m = Toks(replies[0][3:]).clist()
+        if "H" not in res:
+            return out + ["retH: implementation returned a response that is not a 1-D array"]
+        # |H| <= 1; both sides evaluate B(z^-1)/A(z^-1) per section in doubles (different association, Smith's complex division
+        # in numpy): observed difference <= 1e-13, tolerance 1e-9 absolute
+        return out + _cmp("retH", [m], _unpack(res["H"]), 1e-9)
     if not reqs:
         if case["kind"] in ("lpf", "bpf", "short") and not p and res.get("status") != "timeout":
             out.append("no filter coefficients observed: the implementation did not reach scipy.signal")
@@ -847,6 +877,8 @@ def features(case, res):
             f.append("fs=explicit" if case.get("fs_arg") else "fs=gv")
     elif kind != "reth":
         f.append("dev=" + case["dev"])
+    if kind == "reth":
+        f.append("retH-N-odd" if case["nr"] % 2 else "retH-N-even")
     if "wn" in case:
         f.append(f"recurring-cutoff={case['wn']:.0e}Hz@fs={res.get('fs', 0):.3g}" if kind != "hist" else f"history-cutoff={case['wn']:.0e}Hz")
     if kind == "hist":
